@@ -127,10 +127,27 @@ Example C18_nonvacuous :
   /\ barycentre_count ex_mesh = Ok 4 /\ used_element_count ex_mesh = Ok 4.
 Proof. repeat split; vm_compute; reflexivity. Qed.
 
-(* recorded, outside the quantifier: when the highest dimension is 1 the three functions
-   disagree (used_element_count counts the edges, dual and barycentres drop them) *)
-Example C18_dimension_1_counts_differ :
+(* recorded, outside the quantifier: when the highest dimension is 1 each function counts the
+   edges or not according to its own filter clause (read from the source: Gen/MeshTables.v).
+   At the pinned source dual and barycentres drop them, used_element_count counts them, so
+   the three numbers disagree (0, 0, 2 here); the statement follows the source, so repairing
+   the code does not break it. *)
+Example C18_dimension_1_counts_follow_the_clauses :
   let m := mkMesh 3 [ (Edge, [0;1; 1;2]); (Vertex, [0]) ] in
   max_dimension (m_topology m) = Some 1 /\ wf_mesh m = false
-  /\ dual m = Ok (mkCsr 0 0 [0] [] []) /\ barycentre_count m = Ok 0 /\ used_element_count m = Ok 2.
-Proof. repeat split; vm_compute; reflexivity. Qed.
+  /\ (exists g, dual m = Ok g /\ g_rows g = if dual_drops_edges then 0 else 2)
+  /\ barycentre_count m = Ok (if barycentres_drops_edges then 0 else 2)
+  /\ used_element_count m = Ok (if used_count_drops_edges then 0 else 2).
+Proof.
+  repeat split; try (vm_compute; reflexivity).
+  eexists. split; vm_compute; reflexivity.
+Qed.
+
+(* the distinct-node hypothesis is needed for symmetry: with a repeated node inside an element
+   the shared-node count is not symmetric, and neither is the matrix `dual` returns
+   (triangle 0 = [0;0;1] has two of its nodes in triangle 1 = [0;2;3], which has one in it) *)
+Example C18_repeated_node_breaks_symmetry :
+  let m := mkMesh 4 [ (Triangle, [0;0;1; 0;2;3]) ] in
+  wf_mesh m = false
+  /\ exists g, dual m = Ok g /\ csr_row g 0 = [1] /\ csr_row g 1 = [].
+Proof. split; [vm_compute; reflexivity|]. eexists. repeat split; vm_compute; reflexivity. Qed.
